@@ -176,3 +176,91 @@ def check_no_live_otherwise(ctx, key, body, enum_pattern, what, min_matches=1):
                body.loc(bb))
         ok = ok and good
     return ok
+
+
+# --------------------------------------------------------------------------- comparison guards
+def G_cmp(origin_a, origin_b, label, equal=True):
+    """guard = branch on `x == y` / `x != y` (PartialEq::eq/ne calls or MIR Eq/Ne) where one operand originates
+    from a call/param/const matching regex origin_a and the other from origin_b; protected code lies on the
+    edge where the operands are equal (equal=True) or different (equal=False)."""
+    ra, rb = re.compile(origin_a), re.compile(origin_b)
+
+    def names(body, op):
+        return [f"{a.kind}:{a.what}" for a in body.origins(op, deep=True)]
+
+    def fn(body):
+        edges, blocks = [], []
+        for bb in body.switches():
+            si = body.switch_info(bb)
+            if not si or si["kind"] != "bool":
+                continue
+            for a in si["atoms"]:
+                ops, is_eq = None, None
+                if a.kind == "call" and re.search(r"::(eq|ne)$", a.what) and "PartialEq" in (a.what + a.extra["fd"]):
+                    ops = a.extra["args"][:2]
+                    is_eq = a.what.endswith("::eq")
+                elif a.kind == "bin" and a.what in ("Eq", "Ne"):
+                    ops = [a.extra["a"], a.extra["b"]]
+                    is_eq = a.what == "Eq"
+                if not ops or len(ops) < 2:
+                    continue
+                n0, n1 = names(body, ops[0]), names(body, ops[1])
+                m = (any(ra.search(x) for x in n0) and any(rb.search(x) for x in n1)) or \
+                    (any(rb.search(x) for x in n0) and any(ra.search(x) for x in n1))
+                if not m:
+                    continue
+                # truth value of the branch condition when operands are equal
+                val_when_equal = is_eq
+                want = val_when_equal if equal else (not val_when_equal)
+                edges.append((bb, si["true"] if want else si["false"]))
+                blocks.append(bb)
+        return edges, blocks
+    return ("custom", fn, label)
+
+
+def G_any(guards, label):
+    """disjunction: the union of the pass edges of several guards (each path must pass one of them)"""
+    def fn(body):
+        edges, blocks = [], []
+        for g in guards:
+            e, b = pass_edges(body, g)
+            edges += e
+            blocks += b
+        return edges, blocks
+    return ("custom", fn, label)
+
+
+# --------------------------------------------------------------------------- argument origins
+def origin_names(body, op, deep=False):
+    """set of non-pass-through origins of an operand: 'call:<callee>', 'param:<n>', 'const:<def-or-value>', 'agg:<adt::variant>' …
+    deep=True also descends into the operands of aggregates the value was built from"""
+    out = set()
+    for a in body.origins(op, deep=deep):
+        if a.kind == "call" and (mir.PASS_THROUGH.match(a.what) or mir.PASS_THROUGH.match(a.extra["fd"])
+                                 or (deep and mir.DERIVED_THROUGH.match(a.what))):
+            continue
+        out.add(f"{a.kind}:{a.what}")
+    return out
+
+
+def check_arg_origin(ctx, key, body, call_pattern, arg_index, allowed_regex, what, min_sites=1):
+    """every argument #arg_index of every call matching call_pattern originates only from allowed origins"""
+    r = re.compile(allowed_regex)
+    sites = body.calls(call_pattern)
+    if len(sites) < min_sites:
+        return ctx.ob(key, False, f"{what}: expected >= {min_sites} call(s) matching {call_pattern} in {body.name}, found {len(sites)}", body.loc())
+    ok_all = True
+    for bb, t in sites:
+        if arg_index >= len(t["args"]):
+            ctx.ob(key, False, f"{what}: call at bb{bb} has no argument #{arg_index}", body.loc(bb))
+            ok_all = False
+            continue
+        names = origin_names(body, t["args"][arg_index])
+        bad = sorted(n for n in names if not r.search(n))
+        ok = bool(names) and not bad
+        ctx.ob(key, ok, f"{what}: argument #{arg_index} of {t['f'].split('::')[-1]} originates from {sorted(names)}" +
+               ("" if ok else f" — NOT allowed: {bad}"), body.loc(bb))
+        if ok:
+            ctx.sample({"fn": body.name, "rule": "argument origin", "call": t["f"], "arg": arg_index, "origins": sorted(names)})
+        ok_all = ok_all and ok
+    return ok_all
